@@ -14,7 +14,8 @@ RULE = ("networks x seeds x accounts {0,1,2^31-2} x every output-producing API (
         "at 3 export nodes; plus histories that alternate requests between a mainnet and a testnet wallet in one process. Oracle: an "
         "independent classifier tags every string leaf (Base58Check version byte, Bech32 prefix, SLIP-132 version, coin type in a "
         "BIP44-shaped path) as main/test/untagged; every tagged leaf must carry the wallet's network and at least the expected number "
-        "of leaves must be tagged. non-trivial = output walked and >= 1 leaf tagged; distinct by construction")
+        "of leaves must be tagged. non-trivial = output walked and >= 1 leaf tagged; distinct by construction"
+        "; also address generators (default and explicit address function), group / bip44/49/84_group rows, WIF and addresses through a node's key objects, grandchildren keys")
 
 PATH_RE = re.compile(r"^[mM]/(44|49|84)'/(\d+)'(/|$)")
 SEEDS = ["000102030405060708090a0b0c0d0e0f", "ff" * 32, "5eb00bbddcf069084889a8ab9155568165f5c453ccb85e70811aaed6f6da5fc19a5ac40b389cd370d086206dec8aa6c43daea6690f20ad3d8d48b2d2ce9e38e4",
